@@ -5,7 +5,7 @@
    Not proved for unbounded histories (bounded kernel sweep + oracle): the entries of the boundary
    operators against faces(), cofaces as the inverse of faces, basis = points of the closure, d.d = 0. *)
 From Coq Require Import String ZArith Bool Arith List.
-From SV Require Import Names NamesFacts ListFacts Rep Fresh Complex Atomic RepInv Reach Homology Filtration Gen World Small Sweeps Shapes ShapesReach Incidence.
+From SV Require Import Names NamesFacts ListFacts Rep Fresh Complex Atomic RepInv Reach Homology Filtration Gen World Small Sweeps Shapes ShapesReach Incidence Closed ClosedReach Duality BasisInv.
 Import ListNotations.
 
 (* indexOf is the simplex's position in the listing of its order, orderOf that order *)
@@ -96,3 +96,17 @@ Theorem C03_cofaces_inverse_of_faces :
   forall r, sinv r -> forall s t, In t (faces r s) <-> In s (cofaces r t).
 Proof. exact cofaces_inverse_of_faces. Qed.
 Print Assumptions C03_cofaces_inverse_of_faces.
+
+(* BASIS = POINTS OF THE CLOSURE, every history of public operations: the invariant bcinv (closedness
+   + "a point is its own basis, the basis of a higher simplex is the union of the bases of its
+   faces") holds after any sequence of the eleven public mutators ... *)
+Theorem C03_public_histories_keep_the_basis_invariant : forall uid ops, bcinv (fold_left pstep ops (empty_rep uid)).
+Proof. exact public_history_bcinv. Qed.
+Print Assumptions C03_public_histories_keep_the_basis_invariant.
+(* ... under which the basis of a simplex of order k is exactly what is reached from it by k face
+   steps: the points in its closure *)
+Theorem C03_basis_is_the_points_of_the_closure :
+  forall r, bcinv r -> forall k t j, assoc t (r_simp r) = Some (k, j) ->
+  forall p, In p (basisOf r t) <-> fchain r k t p.
+Proof. exact basis_is_closure_points. Qed.
+Print Assumptions C03_basis_is_the_points_of_the_closure.
